@@ -743,6 +743,13 @@ func streamCallbacks(e encEmitter) {
 			e.emit(atomT("any"), listT("any", tn, v))
 			continue
 		}
+		if i%5 == 2 && !e.rt() {
+			// pointer-shaped library types, type and position enumerated (not drawn): every (type, position) pair
+			// comes round, the value-receiver TextMarshalers by value first
+			tn, v := psCase(g, i/5)
+			e.emit(tn, v)
+			continue
+		}
 		name := libNames[g.R.Intn(len(libNames))]
 		for name == "LJ" || name == "LJP" || name == "LT" {
 			name = libNames[g.R.Intn(len(libNames))]
@@ -791,6 +798,83 @@ func streamCallbacks(e encEmitter) {
 		}
 		e.emit(tn, v)
 	}
+}
+
+// ---------------------------------------------------------------- pointer-shaped library types (ops_enc.go)
+
+// order: the value-receiver TextMarshalers first (struct, array, map), then value-receiver Marshalers, then pointer receivers
+var psTypes = []string{"PSTV", "PATV", "PMTV", "PSJV", "PAJV", "PMJV", "PSTP", "PATP", "PMTP", "PSJP", "PAJP", "PMJP"}
+
+// psLeaf: the value expression of a pointer-shaped library leaf holding n (the twin's JSON text, see ops_enc.go)
+func psLeaf(name string, n int) *sx {
+	switch name[2:] {
+	case "TV":
+		return listT("lib", atomT(hexS(`"tv`+strconv.Itoa(n)+`"`)))
+	case "JV":
+		return listT("lib", atomT(hexS(`{"mv":`+strconv.Itoa(n)+`}`)))
+	}
+	return listT("lib", atomT(hexS(`{"V":`+strconv.Itoa(n)+`}`)))
+}
+
+const psPositionCount = 16
+
+// psCase: the k-th (type, position) pair.  Positions: by value / by pointer at the top, field of a struct by value and
+// behind a pointer (every tag option), slice / array element, map value, map key, interface value (value and pointer),
+// nested by-value structs, elements behind pointers, inside []interface{}
+func psCase(g *Gen, k int) (*sx, *sx) {
+	name := psTypes[k%len(psTypes)]
+	pos := (k/len(psTypes) + 5*(k%len(psTypes))) % psPositionCount
+	lt := listT("lib", atomT(name))
+	n := 1 + g.R.Intn(99) // never 0: `omitzero` means the same for the type and for its twin in the model
+	lv := psLeaf(name, n)
+	lv2 := psLeaf(name, n+100)
+	tag := atomT(tagHex([]string{"l", "", "l,omitempty", "l,string", "l,omitzero", "-"}[g.R.Intn(6)]))
+	if tag.atom == tagHex("") {
+		tag = atomT("-")
+	} else if tag.atom == tagHex("-") {
+		tag = atomT(tagHex("-,"))
+	}
+	entry := func(k, v *sx) *sx { return &sx{isL: true, list: []*sx{k, v}} }
+	switch pos {
+	case 0:
+		return lt, lv
+	case 1:
+		return listT("ptr", lt), listT("ptr", lv)
+	case 2:
+		return listT("st", listT("f", atomT("A"), atomT("-"), atomT("int")), listT("f", atomT("L"), tag, lt)), listT("st", listT("i", atomT("1")), lv)
+	case 3:
+		return listT("ptr", listT("st", listT("f", atomT("L"), tag, lt), listT("f", atomT("B"), atomT("-"), atomT("bool")))), listT("ptr", listT("st", lv, atomT("t")))
+	case 4:
+		return listT("sl", lt), listT("sl", lv, lv2)
+	case 5:
+		return listT("arr", atomT("2"), lt), listT("arr", lv, lv2)
+	case 6:
+		return listT("map", atomT("str"), lt), listT("map", entry(listT("s", atomT(hexS("k"))), lv))
+	case 7:
+		// map key: comparable TextMarshalers only (a map is not comparable; the pointer receivers and the json.Marshalers
+		// are no key types for encoding/json) - the others stand as the map's value type behind a pointer
+		if name == "PSTV" || name == "PATV" {
+			return listT("map", lt, atomT("int")), listT("map", entry(lv, listT("i", atomT("1"))), entry(lv2, listT("i", atomT("2"))))
+		}
+		return listT("map", atomT("int"), listT("ptr", lt)), listT("map", entry(listT("i", atomT("7")), listT("ptr", lv)))
+	case 8:
+		return atomT("any"), listT("any", lt, lv)
+	case 9:
+		return atomT("any"), listT("any", listT("ptr", lt), listT("ptr", lv))
+	case 10:
+		in := listT("st", listT("f", atomT("L"), tag, lt))
+		return listT("st", listT("f", atomT("In"), atomT("-"), in), listT("f", atomT("S"), atomT("-"), atomT("str"))), listT("st", listT("st", lv), listT("s", atomT(hexS("x"))))
+	case 11:
+		return listT("sl", listT("ptr", lt)), listT("sl", listT("ptr", lv), atomT("nil"), listT("ptr", lv2))
+	case 12:
+		return listT("sl", atomT("any")), listT("sl", listT("any", lt, lv), listT("any", listT("ptr", lt), listT("ptr", lv2)))
+	case 13:
+		return listT("ptr", listT("arr", atomT("1"), lt)), listT("ptr", listT("arr", lv))
+	case 14:
+		return listT("map", atomT("str"), listT("st", listT("f", atomT("L"), tag, lt))), listT("map", entry(listT("s", atomT(hexS("k"))), listT("st", lv)))
+	}
+	return listT("st", listT("f", atomT("P"), atomT(tagHex("p,omitempty")), listT("ptr", lt)), listT("f", atomT("L"), tag, lt), listT("f", atomT("A"), atomT("-"), listT("arr", atomT("1"), lt))),
+		listT("st", listT("ptr", lv2), lv, listT("arr", lv))
 }
 
 var cbTexts = []string{"1", "null", "\"s\"", "{\"a\": 1}", "[1, 2 ,3]", " {} ", "\n[\n]\n", "true", "\"<>&\u2028\"", "-1.5e3", "\"\\u00e9\"", "\"\xff\"", "tv1", "a b", "<&>",
@@ -859,6 +943,14 @@ func streamErrors(e encEmitter) {
 		g.Emit("marfail", b, k)
 		if e.mode != "std" && strings.HasPrefix(k, "ikey.bad") {
 			g.Emit("marfail", strconv.FormatUint(stdBits(), 10), k)
+		}
+	}
+	// embedded pointer-shaped (Text)Marshalers (promoted methods), every fixture at every position
+	if !e.rt() {
+		for _, f := range psFixtures {
+			for _, q := range psPositions {
+				g.Emit("marps", e.bits(), f+"."+q)
+			}
 		}
 	}
 	// programmable callbacks returning every text of the pool, at every kind of position
